@@ -43,7 +43,7 @@ RULE = (
 CLASSES = [
     "stale_superset", "stale_subset", "fresh_session_update", "same_session_update", "cache_deleted",
     "rekey_after_cache", "empty_workspace_update", "rekey_collision", "update_rewrites", "update_noop",
-    "created_by_other_session", "rekey_whole_sp_retyped_key",
+    "created_by_other_session", "rekey_whole_sp_retyped_key", "created_by_clone",
 ]
 ASSUMPTIONS = [
     "only existing jobs are opened by id (a cached id of a removed job may legitimately be re-opened)",
@@ -284,6 +284,43 @@ class Sim:
             self.model[i] = {"sp": copy.deepcopy(sp), "doc": doc_for(k)}
             self.mutated()
 
+    def op_clone_in(self, op):
+        """The job arrives through Project.clone() (as Project.sync does for missing jobs) from another project."""
+        from signac.errors import DestinationExistsError
+
+        k = int(op.get("k", 0)) % NU
+        sp = UNIVERSE[k]
+        i = uid(k)
+        try:
+            if getattr(self, "donor", None) is None:
+                self.donor_root = self.ctx.tmpdir("c08donor")
+                self.donor = self.signac.init_project(self.donor_root)
+            sj = self.donor.open_job(copy.deepcopy(sp)).init()
+            sj.doc.update(doc_for(k))
+        except Exception as e:
+            from vlib.runner import HarnessError
+
+            raise HarnessError("building the donor project failed: %s" % e)
+        try:
+            self.project.clone(sj)
+            outcome = "ok"
+        except DestinationExistsError:
+            outcome = "DestinationExistsError"
+        except Exception as e:
+            outcome = "%s: %s" % (type(e).__name__, e)
+        if i in self.model:
+            if outcome != "DestinationExistsError":
+                self.mm("op_raises", "clone of %r onto an existing job: outcome %s" % (sp, outcome))
+                self.diverged = True
+            return
+        if outcome != "ok":
+            self.mm("op_raises", "clone of %r raised %s" % (sp, outcome))
+            self.diverged = True
+            return
+        self.cl.add("created_by_clone")
+        self.model[i] = {"sp": copy.deepcopy(sp), "doc": doc_for(k)}
+        self.mutated()
+
     def op_remove(self, op):
         k = int(op.get("k", 0)) % NU
         i = uid(k)
@@ -518,6 +555,8 @@ class Sim:
             self.step, self.opname = len(ops), "final observe"
             self.op_observe({})
         shutil.rmtree(self.root, ignore_errors=True)
+        if getattr(self, "donor_root", None):
+            shutil.rmtree(self.donor_root, ignore_errors=True)
 
 
 def run_bulk(case, ctx):
@@ -609,12 +648,13 @@ INIT = fd(op="init", k=KS)
 REMOVE = fd(op="remove", k=KS, by=BY)
 REKEY = fd(op="rekey", k=KS, to=K, by=BY, how=st.sampled_from(["setitem", "setitem", "assign", "update_statepoint"]), read_first=st.booleans())
 EXT = fd(op="ext_init", k=KS)
+CLONE = fd(op="clone_in", k=KS)
 UPDATE = fd(op="update_cache")
 RESTART = fd(op="restart")
 DELETE = fd(op="delete_cache")
 OBSERVE = fd(op="observe")
-MUT = st.one_of(INIT, INIT, EXT, REMOVE, REKEY, REKEY)
-ANY = st.one_of(INIT, INIT, INIT, EXT, REMOVE, REMOVE, REKEY, REKEY, REKEY, UPDATE, UPDATE, UPDATE, RESTART, RESTART, RESTART, DELETE, OBSERVE, OBSERVE)
+MUT = st.one_of(INIT, INIT, EXT, CLONE, REMOVE, REKEY, REKEY)
+ANY = st.one_of(INIT, INIT, INIT, EXT, CLONE, REMOVE, REMOVE, REKEY, REKEY, REKEY, UPDATE, UPDATE, UPDATE, RESTART, RESTART, RESTART, DELETE, OBSERVE, OBSERVE)
 
 
 @st.composite
@@ -676,6 +716,9 @@ CONSTRUCTED = [
     # re-key by assignment / update_statepoint with the unchanged key handed over as 1.0 for 1
     {"filters": F6, "ops": [{"op": "init", "k": 2}, {"op": "init", "k": 9}, {"op": "rekey", "k": 2, "to": 3, "by": "sp", "how": "assign", "read_first": True},
                             {"op": "observe"}, {"op": "rekey", "k": 9, "to": 8, "by": "id", "how": "update_statepoint"}, {"op": "update_cache"}, {"op": "observe"}]},
+    # a job that arrived through Project.clone(), then update_cache in the same session and a look from a new one
+    {"filters": F6, "ops": [{"op": "init", "k": 0}, {"op": "update_cache"}, {"op": "clone_in", "k": 3}, {"op": "observe"}, {"op": "update_cache"}, {"op": "observe"},
+                            {"op": "restart"}, {"op": "clone_in", "k": 5}, {"op": "update_cache"}, {"op": "observe"}]},
     # cache_deleted, empty_workspace_update
     {"filters": [0, 12, 13, 7, 8, 9], "ops": [{"op": "update_cache"}, {"op": "init", "k": 4}, {"op": "update_cache"}, {"op": "delete_cache"}, {"op": "restart"},
                                                {"op": "observe"}, {"op": "remove", "k": 4, "by": "sp"}, {"op": "update_cache"}, {"op": "restart"}, {"op": "update_cache"}]},
